@@ -27,7 +27,22 @@ def main():
     for pid in props:
         if pid not in CLAIMS:
             continue
-        c = CLAIMS[pid]
+        c = dict(CLAIMS[pid])
+        # keep the claim in step with the rules: the clauses added during the build phase are listed in the
+        # EXPLANATION of the rule module ("Also: ..."), the known findings in known_findings.json
+        import importlib
+        import sys
+
+        sys.path.insert(0, str(ROOT))
+        expl = importlib.import_module(f"verif.rules.{pid}").EXPLANATION
+        k = expl.find(" Also")
+        if k >= 0:
+            c["text"] = c["text"].rstrip() + expl[k:]
+        c["design_ref"] = f"DESIGN.md section 4 ({pid}) and section 8"
+        kf = json.loads((ROOT / "known_findings.json").read_text())
+        ids = sorted({f["id"] for f in kf["findings"] if f["property"] == pid})
+        if ids and not all(i in c["note"] for i in ids):
+            c["note"] = c["note"].rstrip() + f" Known findings listed in known_findings.json for this property: {', '.join(ids)}."
         checks.append({
             "property_id": pid,
             "quick_cmd": f"{PY} check.py {pid} --tier quick",
